@@ -134,7 +134,9 @@ def py_epi(j):
     if j[0] == 'push':
         return layout.Push(j[1])
     if j[0] == 'pop':
-        return layout.POP
+        # a FRESH Pop object, as in an unpickled / deep-copied graph (worker processes): marker
+        # checks must use isinstance, never identity with the POP singleton (C17, issue #85)
+        return layout.Pop()
     if j[0] == 'ra':
         return surface.RoleAlignment(tuple(j[2]), prefix=j[1])
     if j[0] == 'a':
